@@ -88,6 +88,13 @@ type Conn struct {
 	TempWriteAt  int // the k-th Write call takes half of its bytes and returns (n, ErrTemporary) once
 	tempFired    int
 
+	// SyncWrites: the transport has no buffer of its own (net.Pipe, a flow-controlled tunnel) and the
+	// client writes a message completely before it reads: a server Write does not return while client
+	// input is still unread. A server that answers a message before it has consumed it then waits for a
+	// client that waits for the server (Deadlocked).
+	SyncWrites bool
+	syncWait   bool
+
 	CloseErr error // returned by the server-side Close (the connection is closed all the same)
 	rdl, wdl time.Time
 	Yield    func() // called (outside the lock) at every Read/Write for schedule diversity
@@ -230,6 +237,17 @@ func (c *Conn) Write(p []byte) (int, error) {
 	}
 	if expired(c.wdl) {
 		return 0, os.ErrDeadlineExceeded
+	}
+	for c.SyncWrites && len(c.in) > 0 && !c.closed && !c.failed {
+		if !c.syncWait {
+			c.syncWait = true
+			c.cond.Broadcast()
+		}
+		c.cond.Wait()
+	}
+	c.syncWait = false
+	if c.closed {
+		return 0, net.ErrClosed
 	}
 	if c.TempWriteAt > 0 && c.writes == c.TempWriteAt && len(p) > 1 {
 		n := len(p) / 2
@@ -420,7 +438,7 @@ func (c *Conn) Quiesce() (closed bool, ok bool) {
 	return c.waitFor(func() bool {
 		// once the client has half-closed (or aborted) the server cannot block for
 		// input any more: the only quiescent state left is "closed"
-		return c.closed || c.failed || (c.blocked && len(c.in) == 0 && !c.inEOF && c.inErr == nil && (c.rdl.IsZero() || time.Until(c.rdl) > 2*time.Second))
+		return c.closed || c.failed || c.syncWait || (c.blocked && len(c.in) == 0 && !c.inEOF && c.inErr == nil && (c.rdl.IsZero() || time.Until(c.rdl) > 2*time.Second))
 	})
 }
 
@@ -598,6 +616,21 @@ func (l *Listener) Accept() (net.Conn, error) {
 	case <-l.done:
 		return nil, net.ErrClosed
 	}
+}
+
+// Deadlocked reports that the server is inside a Write that cannot return because client input is
+// unread (see SyncWrites). Unstick releases it (the client gives up waiting and starts reading).
+func (c *Conn) Deadlocked() bool {
+	c.mu.Lock()
+	defer c.mu.Unlock()
+	return c.syncWait
+}
+
+func (c *Conn) Unstick() {
+	c.mu.Lock()
+	c.SyncWrites = false
+	c.cond.Broadcast()
+	c.mu.Unlock()
 }
 
 // TempFired returns how many transient faults were delivered on the connection.
